@@ -7,6 +7,7 @@
   commitment, colliding binding factors) actually happen.
 -/
 import Frost.Model.Sign
+import Frost.Ref.Hex
 
 namespace Frost.Ref
 
@@ -59,8 +60,6 @@ def natToLE : Nat → Nat → Bytes
 def natToBE (len n : Nat) : Bytes := (natToLE len n).reverse
 
 def beNat (b : Bytes) : Nat := leNat b.reverse
-
-def strBytes (s : String) : Bytes := s.toUTF8.toList
 
 /-- toy hash to 64 bits with a one-byte domain tag after the context string -/
 def toyHash64 (ctx : Bytes) (tag : UInt8) (m : Bytes) : Nat :=
